@@ -146,6 +146,7 @@ def scenarios(tier: str) -> List[Any]:
         for mhl in (64, 256):
             for extra in (0, mhl // 2, mhl, mhl * 3):
                 out.append((engine, "headerlist", mhl, extra, 0, 0))
+                out.append((engine, "headerlist", mhl, extra, "h2c", 0))
         for mr in (0, 1, 2, 3):
             for jit in (0, 1, 2):
                 for nconn in (1, 2, 3):
@@ -253,12 +254,22 @@ def build(params: Any) -> tuple:
               "sources": [("client", client), ("app", [("release", "g")] * k)]}
         return engine, sc
     if fam == "headerlist":
-        _, _, mhl, extra, _, _ = params
-        hdrs = h2_request_headers(b"GET", b"/h") + ([(b"x-pad", b"v" * extra)] if extra else [])
-        client = [("cmd", 0, "preface"), ("cmd", 0, "headers", 1, hdrs, True)]
-        sc = {**base, "conns": {0: {"carrier": "h2", "tls": True, "alpn": "h2"}}, "apps": {"http": OK},
+        _, _, mhl, extra, how, _ = params
+        if how == "h2c":
+            # the connection became HTTP/2 through an h2c upgrade; the judged header block is that of stream 3
+            hdrs = h2_request_headers(b"GET", b"/h", scheme=b"http") + ([(b"x-pad", b"v" * extra)] if extra else [])
+            up = h1_request(b"GET", b"/up", [(b"Connection", b"Upgrade, HTTP2-Settings"), (b"Upgrade", b"h2c"),
+                                             (b"HTTP2-Settings", b"AAMAAABkAAQAoAAAAAIAAAAA")])
+            client = [("data", 0, up), ("wait_status", 0), ("cmd", 0, "headers", 3, hdrs, True)]
+            conn = {"carrier": "h2c", "methods": [b"GET"]}
+        else:
+            hdrs = h2_request_headers(b"GET", b"/h") + ([(b"x-pad", b"v" * extra)] if extra else [])
+            client = [("cmd", 0, "preface"), ("cmd", 0, "headers", 1, hdrs, True)]
+            conn = {"carrier": "h2", "tls": True, "alpn": "h2"}
+        sc = {**base, "conns": {0: conn}, "apps": {"http": OK},
               "config": {"h2_max_header_list_size": mhl, "keep_alive_timeout": 5},
-              "sources": [("client", client)], "midflight": False}
+              "sources": [("client", client)], "midflight": False,
+              "guards": {"resp_count": _resp_guard, "wait_h2": _wait_h2, "resp_heads": _resp_n_guard, "resp_done": _resp_n_guard}}
         return engine, sc
     if fam == "recycle":
         _, _, mr, jit, nconn, trig = params
@@ -449,14 +460,16 @@ def oracle(w: Any, params: Any) -> List[dict]:
             if rel >= k and done < k and rec.closed_at is None:
                 out.append(V("admitted-stream-broken", tag, f"{done} of {k} streams completed"))
     elif fam == "headerlist":
-        _, _, mhl, extra, _, _ = params
-        tag = f"mhl{mhl}"
+        _, _, mhl, extra, how, _ = params
+        tag = f"mhl{mhl}" + (":h2c" if how == "h2c" else "")
         # RFC 9113 6.5.2: size = sum(len(name) + len(value) + 32)
-        hdrs = h2_request_headers(b"GET", b"/h") + ([(b"x-pad", b"v" * extra)] if extra else [])
+        hdrs = h2_request_headers(b"GET", b"/h", scheme=b"http" if how == "h2c" else b"https") + \
+            ([(b"x-pad", b"v" * extra)] if extra else [])
         size = sum(len(n) + len(v) + 32 for n, v in hdrs)
-        if size > mhl and reqs:
+        judged = [i for i in reqs if i.scope["path"] == "/h"]  # (h2c: the upgrade request itself is /up)
+        if size > mhl and judged:
             out.append(V("oversize-headers-served", tag, f"header list of {size} bytes reached the application"))
-        if size <= mhl and not reqs:
+        if size <= mhl and not judged:
             out.append(V("under-limit-refused", tag, f"header list of {size} bytes refused"))
     elif fam == "recycle":
         _, _, mr, jit, nconn, _ = params
